@@ -1,5 +1,6 @@
 """Search-level checks: C06 C07 C08 C09 C10 C18 (in-process through the harness) — correspondence with the
 Lean search model plus decisions on the implementation by the Lean specification."""
+import os
 import re
 from collections import Counter
 
@@ -96,13 +97,13 @@ def correspondence(rep, pid, cases, rust, lean, stats, only_ops=None):
     return first
 
 
-def spec_queries(qlines):
+def spec_queries(qlines, chunk=100, timeout=600):
     qlines = list(dict.fromkeys(qlines))
-    chunk = 100
+    chunk = max(1, min(chunk, -(-len(qlines) // core.NPROC)))      # spread over the cores
     qcases = [qlines[i:i + chunk] for i in range(0, len(qlines), chunk)]
     res = {}
     if qcases:
-        out, _ = core.run_lean(qcases)
+        out, _ = core.run_lean(qcases, timeout=timeout)
         for qc, rs in zip(qcases, out):
             for line, ans in zip(qc, rs):
                 res[line] = ans[0] if ans else None
@@ -414,12 +415,27 @@ def check_pruning(rep, tier, seed):
         # fresh single-depth root search as well
         ops += ["ttnew", "searchroot %d -1 1" % d]
         cases.append(ops)
+    # shuffle histories o0 m o1 m' o2: the mover's move of four plies ago is available again while the opponent did not
+    # repeat — the root's repetition guard must leave the move list alone (and take m out when o2 = o0)
+    sh_roots = [f for f in SMALL if sum(1 for ch in f.split()[0] if ch.isalpha()) <= 7][: (12 if tier == "quick" else 60)]
+    ph1 = [["new " + f, "pushh %d" % (1000 + i), "moves c"] for i, f in enumerate(sh_roots)]
+    p1, _ = core.run_rust(ph1)
+    for i, (f, o) in enumerate(zip(sh_roots, p1)):
+        if not o[2] or " " not in o[2][0]:
+            continue
+        quiet = [d.split(":")[0] for d in o[2][0].split(" ", 1)[1].split(",")
+                 if d.count(":") >= 3 and d.split(":")[1] == "N" and d.split(":")[2].lower() != "p" and d.split(":")[3] == "-"]
+        r.shuffle(quiet)
+        for m in quiet[: (3 if tier == "quick" else 8)]:
+            k1, k2 = r.randrange(1 << 30), r.randrange(1 << 30)
+            cases.append(["new " + f, "pushh %d" % (1000 + i), "playh " + m, "pushh %d" % k1, "playh " + m[2:4] + m[0:2], "pushh %d" % k2,
+                          "obs", "ttnew", "search 2 -1 1", "refroot 1", "refroot 2"])
     stats, kinds = Counter(), Counter()
     rust, rc = core.run_rust(cases)
     lean, lc = core.run_lean(cases, timeout=1500)
     if lc:
         rep.violation("model-vs-impl", "model driver died or timed out", f"{lc}", no_input=True)
-    first = correspondence(rep, "C09", cases, rust, lean, stats, only_ops={"search", "searchroot", "obs", "new", "pushbias"})
+    first = correspondence(rep, "C09", cases, rust, lean, stats, only_ops={"search", "searchroot", "obs", "new", "pushbias", "pushh", "playh"})
     for ci, case in enumerate(cases):
         refs = {}
         for oi, op in enumerate(case):
@@ -516,7 +532,111 @@ def check_mates(rep, tier, seed):
     finish_corr(rep, "C10", cases, first, rust, lean)
     stats["cases"] = len(cases)
     stats["candidate_positions"] = len(cand)
+    check_mate_in_two(rep, tier, r, stats, kinds)
     return stats, kinds, cases
+
+
+MATE_RANGE = 31767
+
+
+def load_mate2():
+    out = []
+    for line in open(os.path.join(core.VERIF, "corpus", "C10_mate2.txt"), encoding="utf-8"):
+        line = line.strip()
+        if line and not line.startswith("#") and "|" in line:
+            f, k = line.split("|")
+            out.append((f.strip(), [m for m in k.strip().split(",") if m]))
+    return out
+
+
+def spec_mate(n, fens, timeout=600):
+    """fen -> (shortest mate length or None, moves keeping a mate of that length, moves keeping a mate within n)"""
+    ans = spec_queries(["spec_mate %d %s" % (n, f) for f in fens], chunk=(100 if n <= 2 else 1), timeout=timeout)
+    res = {}
+    for f in fens:
+        a = ans.get("spec_mate %d %s" % (n, f))
+        if not a or "|" not in a:
+            res[f] = None
+            continue
+        k, best, within = [x.strip() for x in a.split("|")]
+        lst = lambda x: (x.split(" ", 1)[1].split(",") if " " in x and x.split(" ", 1)[1] else [])
+        res[f] = (int(k) if k.isdigit() else None, lst(best), lst(within))
+    return res
+
+
+def check_mate_in_two(rep, tier, r, stats, kinds):
+    """The second half of C10, decided on the implementation: from a fresh table a search to depth >= 5 plays a
+    move that keeps the forced mate, and no iteration follows one that reported a mate-range score.
+    The corpus lists candidate positions with the solver's answers; the solver (Chess/Spec/Mates.lean) is run
+    again here on a seeded sample (all in the thorough tier) and on EVERY position where the engine's move is not
+    in the listed set, so a reported violation never rests on the file."""
+    corpus = load_mate2()
+    sample = corpus if tier == "thorough" else r.sample(corpus, 48) + corpus[-1:]
+    fresh = spec_mate(2, [f for f, _ in sample])
+    for f, keep in sample:
+        got = fresh.get(f)
+        stats["mate2_resolved"] += 1
+        if not got or got[0] != 2 or sorted(got[1]) != sorted(keep):
+            rep.violation("extract", f"corpus:C10_mate2 entry disagrees with the solver @ {f}", f"file {keep} solver {got}", no_input=True)
+    cases, meta = [], []
+    for f, keep in corpus:
+        for d in (("5", "-") if tier == "quick" else ("5", "6", "9", "-")):
+            cases.append(["new " + f + " 0 1", "ttnew", "search %s 5000000 0" % d])
+            meta.append((f, d, keep))
+    rust, rc = core.run_rust(cases)
+    if rc:
+        rep.violation("impl-vs-spec", "harness process died or timed out (mate in two)", f"exit codes {rc}", no_input=True)
+    suspects = []
+    for (f, d, keep), case, outs in zip(meta, cases, rust):
+        infos, res = parse_search(outs[2])
+        stats["mate2_searches"] += 1
+        if res.get("nogame"):
+            continue
+        if "fault" in res or "bestmove" not in res:
+            rep.violation("impl-vs-spec", f"search failed @ {f}", f"{outs[2]}", replay_ops=case)
+            continue
+        scores = [i.get("score", 0) for i in infos]
+        for j, sc in enumerate(scores[:-1]):
+            if abs(sc) > MATE_RANGE:
+                rep.violation("impl-vs-spec", f"search went on after reporting a mate score: scores {scores} (limit {d}) @ {f}", "", replay_ops=case)
+                break
+        if res["bestmove"] not in keep:
+            suspects.append((f, d, res["bestmove"], case, scores))
+    # every suspect is decided by the solver now: does the move keep the mate in two? a longer forced mate?
+    if suspects:
+        fens = list(dict.fromkeys(f for f, *_ in suspects))[:40]
+        deep = spec_mate(3, fens)
+        again = [f for f, d, mv, *_ in suspects if deep.get(f) and mv not in deep[f][1] and mv not in deep[f][2]]
+        if tier == "thorough":
+            deep.update({f: v for f, v in spec_mate(4, list(dict.fromkeys(again))[:3], timeout=300).items() if v})
+        for f, d, mv, case, scores in suspects:
+            got = deep.get(f)
+            if not got:
+                continue
+            if mv in got[1]:
+                continue                      # the file was stale; the solver accepts the move
+            if mv in got[2]:
+                # the mate is still forced, one or two moves later than necessary (a table entry met at another
+                # distance from the root carries a mate score of the wrong length): the property asks for a move
+                # that KEEPS the forced mate, which this does — counted, not reported
+                stats["mate2_kept_but_lengthened"] += 1
+                kinds["mate2_lengthened"] += 1
+                continue
+            rep.violation("impl-vs-spec", f"forced mate in two given up (limit {d}): played {mv}, keeping moves {got[1]}, scores {scores} @ {f}",
+                          "", replay_ops=case)
+    kinds["mate2"] += len(cases)
+    check_mate_histories(rep, tier, r, stats, kinds, dict(corpus))
+    # the model on a sample of the same searches
+    pick = r.sample(range(len(cases)), 12 if tier == "quick" else 200)
+    sub = [cases[i] for i in pick]
+    lean, lc = core.run_lean(sub, timeout=900)
+    if lc:
+        rep.violation("model-vs-impl", "model driver died or timed out (mate in two)", f"exit codes {lc}", no_input=True)
+    for i, lo in zip(pick, lean):
+        stats["mate2_model_searches"] += 1
+        if lo[2] != rust[i][2] and not rep.violations:
+            rep.violation("model-vs-impl", f"correspondence:C10:search `{cases[i][2]}` @ {cases[i][0]}",
+                          f"impl={rust[i][2]} model={lo[2]}", replay_ops=cases[i], no_input=True)
 
 
 # ----------------------------------------------------------------------------------------- C15
@@ -588,3 +708,52 @@ def check_bounds(rep, tier, seed):
     stats["selfplay_wall_s"] = int(time.time() - t0)
     stats["cases"] = len(cases)
     return stats, kinds, cases
+
+
+REPETITION_FINDING = ("the repetition guard of get_best_move_entry (search.rs) takes the only move that keeps a forced mate in two out of the "
+                      "root move list when the opponent has just repeated its move (history x M x' M' x): the forced mate is given up")
+
+
+def check_mate_histories(rep, tier, r, stats, kinds, keep_of):
+    """Mate-in-two positions reached through a history in which the opponent repeats its move, so that the root's
+    repetition guard fires on the mover's move of four plies ago — which here is the only move that keeps the mate."""
+    lines = []
+    for line in open(os.path.join(core.VERIF, "corpus", "C10_history.txt"), encoding="utf-8"):
+        if line.startswith("rep |"):
+            _, start, moves, reached = [x.strip() for x in line.split("|")]
+            lines.append((start, moves.split(), reached))
+    if tier == "quick":
+        lines = r.sample(lines, 10)
+    cases = [["position fen %s moves %s" % (start, " ".join(ms)), "ttnew", "search 5 5000000 0"] for start, ms, _ in lines]
+    rust, rc = core.run_rust(cases)
+    suspects = []
+    for (start, ms, reached), case, outs in zip(lines, cases, rust):
+        if not outs[0] or not outs[0][0].startswith("ok ") or core.fen4(outs[0][0][3:]) != reached:
+            rep.violation("extract", f"corpus:C10_history line no longer leads to its position @ {start} {ms}", f"{outs[0]}", no_input=True)
+            continue
+        keep = keep_of.get(reached)
+        infos, res = parse_search(outs[2])
+        stats["mate2_history_searches"] += 1
+        if keep is None or "bestmove" not in res:
+            continue
+        if res["bestmove"] not in keep:
+            suspects.append((reached, ms, res["bestmove"], case, keep))
+    if suspects:
+        fens = list(dict.fromkeys(f for f, *_ in suspects))[: (5 if tier == "quick" else 60)]
+        deep = spec_mate(3, fens)
+        for f, ms, mv, case, keep in suspects:
+            got = deep.get(f)
+            if not got or got[0] != 2:
+                continue
+            if mv in got[1]:
+                continue
+            if mv in got[2]:
+                stats["mate2_kept_but_lengthened"] += 1
+                continue
+            guard = len(ms) >= 5 and ms[-1] == ms[-5] and got[1] == [ms[-4]]
+            if guard:
+                kinds["repetition_guard_drops_the_mate"] += 1
+                rep.violation("impl-vs-spec", REPETITION_FINDING, f"e.g. {case[0]}: played {mv}, the only keeping move is {got[1]}", replay_ops=case)
+            else:
+                rep.violation("impl-vs-spec", f"forced mate in two given up after history {' '.join(ms)}: played {mv}, keeping moves {got[1]} @ {f}",
+                              "", replay_ops=case)
